@@ -382,6 +382,10 @@ class ServerSocket(FakeSocket):
             self.hostkey_type = lists[1][0]
             self.kex_alg = lists[0][0]
         elif t == 30 and not getattr(self, 'gex', False):       # KEXDH_INIT / ECDH_INIT
+            if not init_ok(getattr(self, 'kex_alg', ''), payload):
+                srv.requests.append((self.n, 'malformed kexdh_init', payload[:8].hex()))
+                self.chunks.append(None)       # protocol error: a real server disconnects
+                return
             srv.requests.append((self.n, 'kexdh_init', self.hostkey_type))
             blob = srv.hostkeys.get(self.hostkey_type)
             if blob is None:
@@ -399,9 +403,17 @@ class ServerSocket(FakeSocket):
             p = (1 << (m - 1)) | 0xf123456789abcdef
             self.reply('gex_group', packet(b'\x1f' + mpint(p) + mpint(2)))
         elif t == 32:                          # GEX_INIT
-            srv.requests.append((self.n, 'gex_init', None))
+            if not init_ok('diffie-hellman-group-exchange', payload):
+                srv.requests.append((self.n, 'malformed gex_init', payload[:8].hex()))
+                self.chunks.append(None)
+                return
+            srv.requests.append((self.n, 'gex_init', self.hostkey_type))
             blob = srv.hostkeys.get(self.hostkey_type) or ed25519_blob()
             self.reply('gex_reply', packet(b'\x21' + ssh_string(blob) + mpint(12345) + ssh_string(b'sig')))
+
+        elif t not in (1, 2, 3, 4):            # (disconnect / ignore / unimplemented / debug are legal at any time)
+            srv.requests.append((self.n, 'unexpected message', t))
+            self.chunks.append(None)           # protocol error: a real server disconnects
 
     def recv(self, n, flags=0):
         self.net.recv_calls = getattr(self.net, 'recv_calls', 0) + 1
@@ -411,6 +423,27 @@ class ServerSocket(FakeSocket):
             self.chunks = []
             return b''
         return FakeSocket.recv(self, n, flags)
+
+
+POINT_LEN = {'curve25519-sha256': 32, 'curve25519-sha256@libssh.org': 32, 'ecdh-sha2-nistp256': 65, 'ecdh-sha2-nistp384': 97, 'ecdh-sha2-nistp521': 133}
+
+
+def init_ok(kex_alg, payload):
+    """is this a well-formed KEXDH_INIT / ECDH_INIT / GEX_INIT for the negotiated method: the message number, then exactly one
+    length-prefixed value -- a public point of the curve's size, or a positive mpint in minimal form"""
+    if len(payload) < 5:
+        return False
+    n = struct.unpack('>I', payload[1:5])[0]
+    if len(payload) != 5 + n or n == 0:
+        return False
+    v = payload[5:]
+    if kex_alg in POINT_LEN:
+        return n == POINT_LEN[kex_alg] and (n == 32 or v[0] == 4)
+    if v[0] & 0x80:
+        return False                       # negative
+    if v[0] == 0 and (n == 1 or not v[1] & 0x80):
+        return False                       # not minimal (or zero)
+    return int.from_bytes(v, 'big') > 1
 
 
 def unframe(pkt):
